@@ -322,6 +322,61 @@ func TestC08Race(t *testing.T) {
 				}
 			}
 		}
+		// the exception objects two contexts get for the same failing steps are never the same objects
+		{
+			fz := &c10Fz{g: &G{T: rt}, kinds: map[string]bool{}, recursive: true}
+			var sb strings.Builder
+			sb.WriteString(c10FuzzPrelude + "def rec(n):\n    return rec(n + 1)\nERRS = []\n")
+			nst := fz.g.Int(3, 10)
+			for i := 0; i < nst; i++ {
+				st := fz.stmt()
+				if fz.g.Chance(1, 6) {
+					st = "rec(0)"
+				}
+				sb.WriteString("try:\n" + Indent(st, 4))
+				if !strings.HasSuffix(st, "\n") {
+					sb.WriteString("\n")
+				}
+				sb.WriteString("except Exception as _e:\n    ERRS.append(_e)\n")
+			}
+			prog := sb.String()
+			errsOf := func() []py.Object {
+				ctx, _ := NewCtx(nil, nil)
+				defer ctx.Close()
+				mod, err := ctx.Store().NewModule(ctx, &py.ModuleImpl{Info: py.ModuleInfo{FileDesc: "<c08errs>"}})
+				if err != nil {
+					return nil
+				}
+				code, err := py.Compile(prog, "<c08errs>", py.ExecMode, 0, true)
+				if err != nil {
+					return nil
+				}
+				Protect(func() { ctx.RunCode(code, mod.Globals, mod.Globals, nil) })
+				l, _ := mod.Globals["ERRS"].(*py.List)
+				if l == nil {
+					return nil
+				}
+				return append([]py.Object(nil), l.Items...)
+			}
+			a, b := errsOf(), errsOf()
+			r.Count("errs:"+prog, len(a) > 0)
+			r.Class("exception-object-identity")
+			seen := map[py.Object]int{}
+			for i, e := range a {
+				if _, ok := e.(*py.Exception); ok {
+					seen[e] = i
+				}
+			}
+			for j, e := range b {
+				if i, ok := seen[e]; ok {
+					cls, _ := ErrClass(e.(*py.Exception))
+					if !r.Mismatch(&Case{Kind: "c08errs", Sig: "shared-exception-object:" + cls, Program: prog, Expected: "two runs in two contexts get distinct exception objects", Actual: fmt.Sprintf("ERRS[%d] of the first context is ERRS[%d] of the second (%s)", i, j, cls)}) {
+						rt.Fatalf("C08 shared exception object")
+					}
+					break
+				}
+			}
+		}
 		// one code object, many contexts at once
 		code, err := py.Compile("import math\n_acc = []\nfor i in range(50):\n    _acc.append(i * i)\ndef h(n):\n    return [math.floor(n / 2) for _ in range(3)]\n_acc.append(h(9))\n", "<shared>", py.ExecMode, 0, true)
 		if err != nil {
@@ -375,7 +430,11 @@ func TestC08Race(t *testing.T) {
 						return
 					}
 					defer c.ctx.Close()
+					// an embedder may register further modules while contexts are being made and are importing
+					own := fmt.Sprintf("%s_late%d", name, i)
+					py.RegisterModule(&py.ModuleImpl{Info: py.ModuleInfo{Name: own, FileDesc: "<" + own + ">"}, CodeSrc: fmt.Sprintf("me = %d\n", i)})
 					c.runStmt(fmt.Sprintf("import %s as sm\n_acc = list(sm.add(%d))", name, i))
+					c.runStmt(fmt.Sprintf("import %s as late\nassert late.me == %d", own, i))
 					if m, err := c.ctx.ModuleInit(shared); err == nil {
 						c.mod.Globals["_direct"] = m.Globals["state"]
 						c.runStmt(fmt.Sprintf("_direct.append(%d)\n_acc.append(list(_direct))", i))
@@ -430,6 +489,43 @@ func TestC08Race(t *testing.T) {
 			}
 		}
 	})
+}
+
+func init() {
+	replayers["c08errs"] = func(c *Case) (string, string, error) {
+		run := func() []py.Object {
+			ctx, _ := NewCtx(nil, nil)
+			defer ctx.Close()
+			mod, err := ctx.Store().NewModule(ctx, &py.ModuleImpl{Info: py.ModuleInfo{FileDesc: "<c08errs>"}})
+			if err != nil {
+				return nil
+			}
+			code, err := py.Compile(c.Program, "<c08errs>", py.ExecMode, 0, true)
+			if err != nil {
+				return nil
+			}
+			Protect(func() { ctx.RunCode(code, mod.Globals, mod.Globals, nil) })
+			l, _ := mod.Globals["ERRS"].(*py.List)
+			if l == nil {
+				return nil
+			}
+			return append([]py.Object(nil), l.Items...)
+		}
+		a, b := run(), run()
+		seen := map[py.Object]bool{}
+		for _, e := range a {
+			if _, ok := e.(*py.Exception); ok {
+				seen[e] = true
+			}
+		}
+		for _, e := range b {
+			if seen[e] {
+				cls, _ := ErrClass(e.(*py.Exception))
+				return "shared-exception-object:" + cls, "an exception object of the first context reappears in the second", nil
+			}
+		}
+		return "", "", nil
+	}
 }
 
 func init() {
